@@ -32,6 +32,9 @@ type ref struct {
 	adj   map[string][]string // id -> targets (present nodes only)
 	nodes map[string]bool
 	roots map[string]bool
+	// noExpand: identifiers the traversal reaches but does not follow (alternative reference for the known finding
+	// about the empty identifier)
+	noExpand map[string]bool
 }
 
 func newRef(nl *sbom.NodeList) *ref {
@@ -67,6 +70,9 @@ func (r *ref) levels(start string) map[string]int {
 		u := q[0]
 		q = q[1:]
 		if u != start && r.roots[u] {
+			continue
+		}
+		if r.noExpand[u] {
 			continue
 		}
 		for _, v := range r.adj[u] {
@@ -145,6 +151,9 @@ func checkResult(op string, in *sbom.NodeList, res *sbom.NodeList, start string,
 	return nil
 }
 
+// emptyIDs is set by the cases of the empty-identifiers group.
+var emptyIDs bool
+
 // inputRepeatsIDs is set by the cases of the repeated-identifiers group (ill-formed lists that carry one identifier on
 // two node objects): the results are judged as sets of identifiers there. Each worker process runs one case at a time.
 var inputRepeatsIDs bool
@@ -192,6 +201,28 @@ func runAll(t *engine.T, nl *sbom.NodeList, start string, maxDepth int) (string,
 	t.Transitions(1)
 	t.Validated(1)
 	if v := checkResult("graph", nl, g, start, wantG, wantG); v != nil {
+		if emptyIDs {
+			// is it precisely the deviation on record - the node with the empty identifier is reached but its edges are
+			// not followed (NodeSiblings refuses the empty identifier) - or something else?
+			r2 := newRef(nl)
+			r2.noExpand = map[string]bool{"": true}
+			lv2 := r2.levels(start)
+			alt := map[string]bool{}
+			for id := range lv2 {
+				if id == start || !r2.roots[id] {
+					alt[id] = true
+				}
+			}
+			altExp := map[string]bool{}
+			for id := range alt {
+				if id != "" {
+					altExp[id] = true
+				}
+			}
+			if checkResult("graph", nl, g, start, alt, altExp) == nil {
+				return "", engine.Violate("graph-nodes", "empty-identifier-not-traversed", "NodeGraph(%q) reaches the node whose identifier is empty but does not follow its edges: got {%s}, reachable {%s}", start, keysOf(setOf(g)), keysOf(wantG))
+			}
+		}
 		return "", v
 	}
 	obs.WriteString("G:" + resultKey(g))
@@ -207,7 +238,12 @@ func runAll(t *engine.T, nl *sbom.NodeList, start string, maxDepth int) (string,
 	s := nl.NodeSiblings(start)
 	t.Transitions(1)
 	t.Validated(1)
-	if v := checkResult("siblings", nl, s, start, wantS, map[string]bool{start: true}); v != nil {
+	if emptyIDs && start == "" {
+		// documented: NodeSiblings returns nil for the empty identifier
+		if s != nil {
+			return "", engine.Violate("siblings-nodes", "empty-identifier", "NodeSiblings(\"\") returned a list; it is documented to refuse the empty identifier")
+		}
+	} else if v := checkResult("siblings", nl, s, start, wantS, map[string]bool{start: true}); v != nil {
 		return "", v
 	}
 	obs.WriteString("#S:" + resultKey(s))
@@ -478,6 +514,44 @@ func Run(c *engine.Ctx) {
 				}
 			})
 		}
+	}
+
+	// ill-formed lists in which one node has the empty identifier: as start, as an inner node with edges of its own, as
+	// a leaf, as a root
+	{
+		c.Group("empty-identifiers")
+		idsE := []string{"s", "", "b"}
+		var objs []gen.EdgeSpec
+		for _, f := range idsE {
+			for _, to := range [][]string{{""}, {"b"}, {"s"}, {"", "b"}, {"b", ""}} {
+				objs = append(objs, gen.EdgeSpec{From: f, Type: sbom.Edge_contains, To: to})
+			}
+		}
+		c.Bound("empty-identifiers", fmt.Sprintf("nodes s, \"\", b in every order x every ordered list of <=2 of %d edge objects x roots {none, s, \"\"} x every start (the empty one included); NodeSiblings(\"\") is nil as documented", len(objs)))
+		gen.Permutations(3, func(p []int) {
+			seq := []string{idsE[p[0]], idsE[p[1]], idsE[p[2]]}
+			gen.EdgeLists(objs, 2, func(el []gen.EdgeSpec) {
+				for _, roots := range [][]string{nil, {"s"}, {""}} {
+					for _, st := range idsE {
+						spec := gen.ListSpec{Nodes: seq, Edges: el, Roots: roots}
+						st := st
+						c.Case(func() any { return caseDesc{List: spec, Start: st} }, func(t *engine.T) *engine.Violation {
+							emptyIDs = true
+							defer func() { emptyIDs = false }()
+							nl := spec.Build()
+							obs, v := runAll(t, nl, st, 4)
+							if v != nil {
+								return v
+							}
+							t.Observe(obs)
+							t.State("emptyid|" + strings.Join(seq, ",") + "|" + gen.CanonKey(nl) + "@" + st)
+							t.Outcome("empty-identifiers " + outcomeClass(obs))
+							return nil
+						})
+					}
+				}
+			})
+		})
 	}
 
 	// every edge type (and two undeclared numbers): chains and fans that are only connected through that type
